@@ -533,7 +533,7 @@ int main(int argc, char** argv) {
     for (int i = 0; i < g_np * g_tpv; ++i) { g_subs[1 + i].is_photon = true; g_subs[1 + i].vcpu = i % g_np; }
     for (auto& v : g_sub_vcpus) v.store(nullptr);
 
-    vh::start_supervisor(on_stuck);
+    vh::start_supervisor(on_stuck, vh::is_tsan() ? 15000 : 5000);   // creating a pool (OS threads + photon::init each) alone can take seconds under TSan on a loaded machine
 
     std::thread vth;
     if (g_np) {
